@@ -429,6 +429,9 @@ def commands_for(c, structural=True):
     if c.get("conn_k"):
         for m in METHODS:
             cmds.append("G %s %d" % (m, c["conn_k"]))
+    if c.get("wrap_k"):
+        for m in ("V", "C"):
+            cmds.append("W %s %d" % (m, c["wrap_k"]))
     return cmds
 
 
@@ -439,10 +442,17 @@ def ints(tokens):
     return out
 
 
+def hexf(tok):
+    try:
+        return float.fromhex(tok)
+    except ValueError:
+        return float("nan")
+
+
 def parse_case_output(lines):
     """-> dict: F[(m,k)] = rows (dict q -> list) ; O[(k,row)] = list ; T[k] = {"nodes":[...], "rows":{q:[..]}} ;
     Q[k] = {q: cands} ; CT = {"nodes": [...]} ; bad = [messages]"""
-    res = {"F": {}, "G": {}, "O": {}, "T": {}, "Q": {}, "CT": None, "bad": [], "exc": []}
+    res = {"F": {}, "G": {}, "O": {}, "T": {}, "Q": {}, "CT": None, "bad": [], "exc": [], "W": {}, "P": None}
     i = 0
     n = len(lines)
     while i < n:
@@ -461,6 +471,29 @@ def parse_case_output(lines):
                         raise ValueError("row line " + " ".join(r)[:60])
                     rows.append((int(r[1]), ints(r[3:])))
                 res[w[0]][(m, k)] = rows
+            elif w[0] == "W":
+                m, k, logged, nr, nraw = w[1], int(w[2]), int(w[3]), int(w[4]), int(w[5])
+                if not (0 <= nr <= n and 0 <= nraw <= n):
+                    raise ValueError("W header " + " ".join(w)[:60])
+                rows, raw = [], []
+                for tag, cnt, dst in (("r", nr, rows), ("w", nraw, raw)):
+                    for _ in range(cnt):
+                        r = lines[i].split()
+                        i += 1
+                        if len(r) < 3 or r[0] != tag or r[2] != ":":
+                            raise ValueError("W row line " + " ".join(r)[:60])
+                        dst.append((int(r[1]), ints(r[3:])))
+                res["W"][(m, k)] = {"logged": logged, "rows": rows, "raw": raw}
+            elif w[0] == "P":
+                nn = int(w[1])
+                tabl = []
+                for _ in range(nn):
+                    r = lines[i].split()
+                    i += 1
+                    if not r or r[0] != "p" or len(r) != nn + 1:
+                        raise ValueError("P row line")
+                    tabl.append([hexf(x) for x in r[1:]])
+                res["P"] = tabl
             elif w[0] == "O":
                 if w[3] == "R":
                     res["O"][(int(w[1]), int(w[2]))] = ints(w[5:])
@@ -641,6 +674,8 @@ def conn_rows_k(rows, k, n):
 
 def fails_spec(ctx, exe, mexe, c, method, k, conn=False):
     """does find_neighbors(method, k) violate is_knn_b (or crash) on case c?  -> None | why"""
+    if conn == "wrap":
+        return fails_wrap(ctx, exe, mexe, c, method, k)
     if not (1 <= k <= c["N"] - 1):
         return None
     tag = "G" if conn else "F"
@@ -696,7 +731,9 @@ def report_violation(ctx, exe, mexe, c, method, k, why, conn=False):
     small = sub_case(c, idx)
     why2 = fails_spec(ctx, exe, mexe, small, method, k, conn) or why
     rep = {"gen": c["gen"], "kind": c["kind"], "N": small["N"], "method": method, "k": k}
-    if conn:
+    if conn == "wrap":
+        rep["wrap"] = True
+    elif conn:
         rep["conn"] = True
     rep["M" if c["kind"] == "D" else "X"] = small["M"] if c["kind"] == "D" else small["X"]
     if small.get("Mhex"):
@@ -761,6 +798,17 @@ def evaluate(ctx, exe, mexe, cases, stats, structural=True):
             if not hit:
                 ctx.mismatch({"gen": c["gen"], "N": n}, "unparsable harness output: " + (p["bad"] + p["exc"])[0])
             continue
+        # ---- the dispatcher on a metric: the tree table is exact, so (theorem wrapper_tree_exact_unchanged) the fallback must
+        #      not fire, nothing is logged at level warning and the table returned is the tree's own
+        for (m, k), w in sorted(p["W"].items()):
+            stats["wrap_metric_calls"] = stats.get("wrap_metric_calls", 0) + 1
+            short = [q for q, r_ in w["raw"] if len(r_) != k]
+            if w["logged"] or short or w["rows"] != w["raw"]:
+                ctx.mismatch({"gen": c["gen"], "N": n, "kind": c["kind"], "M": c.get("M"), "X": c.get("X"), "ids": c.get("ids"),
+                              "kscale": c.get("kscale"), "method": m, "k": k},
+                             "dispatcher on an exact metric, %s k=%d: %d warnings logged, raw tree rows of the wrong size: %s, "
+                             "returned table %s the raw tree table" % (MNAME[m], k, w["logged"], short[:5],
+                                                                       "equals" if w["rows"] == w["raw"] else "differs from"))
         # ---- one model-driver conversation for the whole case
         text = [table_text(T)]
         plan = []          # what each answer block means
@@ -1028,6 +1076,219 @@ def evaluate_fast(ctx, exe, mexe, cases, stats):
     return nrows
 
 
+# ----------------------------------------------------------------------------- the dispatcher and its fallback (wave 4)
+NONMETRIC = ["nm_sym", "nm_sym", "nm_sq", "nm_pert", "nm_pert", "nm_asym", "nm_koff", "nm_koff"]
+
+
+def gen_nonmetric(rng, which=None, nmax=30):
+    """callbacks that are NOT metrics (legal dissimilarities all the same): the tree searches promise nothing on them, the
+    dispatcher find_neighbors does - whenever a tree comes back with a row of the wrong size the exhaustive search, which
+    is exact for ANY callback (theorem brute_exact), must replace the WHOLE table (theorem wrapper_fired_exact).
+      nm_sym   arbitrary symmetric integer tables, zero diagonal
+      nm_sq    squared Euclidean distances of integer points (no triangle inequality)
+      nm_pert  an L1 lattice metric with a few entries moved (nearly a metric: most rows of the trees are right, a few are
+               short, a few are complete but wrong - all three kinds in one table)
+      nm_asym  asymmetric integer tables
+      nm_koff  kernel-induced distance sqrt(k(x,x) - 2k(x,y) + k(y,y)) of a linear kernel on features with a large
+               common offset (2e6 .. 1e7, spread 1, 3-10 features): noisy through cancellation; the Gram table is served
+               as hex floats, the distance table is taken from the library's own KernelDistance (command P)"""
+    g = which or rng.choice(NONMETRIC)
+    c = {"gen": g, "tseed": rng.randrange(1 << 30), "structural": False, "nonmetric": True}
+    if g == "nm_koff":
+        n = rng.randint(8, max(8, min(2 * nmax, 60)))
+        dim = rng.choice([3, 5, 10, 10])
+        off = rng.choice([2e6, 5e6, 7e6, 7e6, 1e7])
+        X = [[off + rng.random() for _ in range(dim)] for _ in range(n)]
+        G = [[math.fsum(a * b for a, b in zip(p, q)) for q in X] for p in X]
+        c.update(kind="K", N=n, X=X, Ghex=[[v.hex() for v in row] for row in G], kscale=0)
+    else:
+        n = rng.randint(4, nmax)
+        if g == "nm_sym":
+            r = rng.choice([3, 8, 30, 1000])
+            lo = 0 if rng.random() < 0.2 else 1
+            M = [[0] * n for _ in range(n)]
+            for i in range(n):
+                for j in range(i):
+                    M[i][j] = M[j][i] = rng.randint(lo, r)
+        elif g == "nm_asym":
+            r = rng.choice([3, 8, 30])
+            M = [[0 if i == j else rng.randint(1, r) for j in range(n)] for i in range(n)]
+        elif g == "nm_sq":
+            dim = rng.choice([1, 2, 3])
+            r = rng.choice([5, 20, 100])
+            P = [[rng.randint(0, r) for _ in range(dim)] for _ in range(n)]
+            M = [[sum((a - b) ** 2 for a, b in zip(p, q)) for q in P] for p in P]
+        else:
+            dim = rng.choice([1, 2])
+            r = rng.choice([8, 20, 60])
+            P = [[rng.randint(0, r) for _ in range(dim)] for _ in range(n)]
+            M = l1(P)
+            for _ in range(rng.randint(1, max(1, n // 2))):
+                i, j = rng.randrange(n), rng.randrange(n)
+                if i != j:
+                    M[i][j] = M[j][i] = max(0, M[i][j] + rng.choice([-1, 1]) * rng.randint(1, max(1, r // 2)))
+        c.update(kind="D", N=n, M=M)
+    n = c["N"]
+    c["ks"] = sorted({1, 2, min(5, n - 1), n - 2, n - 1, rng.randint(1, n - 1)} - {0})
+    return c
+
+
+def wrap_table(c, p):
+    """the table of the callback's values as the library sees them (integers for the extracted spec: the rank of every
+    value - is_knn only compares) or None when it holds a NaN / infinity (sqrt of a negative radicand: no order)"""
+    if c["kind"] == "D" and not c.get("Mhex"):
+        return c["M"]
+    F = p.get("P")
+    n = c["N"]
+    if F is None or len(F) != n or any(len(r) != n for r in F):
+        return None
+    vals = sorted({v for row in F for v in row if v == v})
+    if any(v != v or v in (float("inf"), float("-inf")) for row in F for v in row):
+        return None
+    rank = {v: i for i, v in enumerate(vals)}
+    return [[rank[v] for v in row] for row in F]
+
+
+def judge_wrap(ctx, mexe, c, T, obs, stats=None):
+    """obs: [(method, k, W-observation)] of one case.  -> (violations [(method, k, why)], mismatches [text])
+    The extracted find_neighbors_core decides from the RAW tree table whether the fallback must fire; then every row of
+    the returned table goes through the extracted is_knn_b on the callback's table as it is (no metric assumption)."""
+    n = c["N"]
+    text, plan, viol, mism = [table_text(T)], [], [], []
+    for m, k, w in obs:
+        rows, raw = w["rows"], w["raw"]
+        if sorted(q for q, _ in rows) != list(range(n)) or sane_rows(rows, n) is None:
+            viol.append((m, k, "find_neighbors(%s, k=%d) returned %d rows for %d samples or out-of-range indices"
+                         % (MNAME[m], k, len(rows), n)))
+            continue
+        if m != "B" and ([q for q, _ in raw] != list(range(n)) or sane_rows(raw, n) is None):
+            mism.append("raw %s search (k=%d) returned %d rows for %d samples" % (MNAME[m], k, len(raw), n))
+            continue
+        text.append("WRAP %s %d %d\n" % (m, k, len(raw)) +
+                    "".join("%d : %s\n" % (q, " ".join(str(j) for j in r)) for q, r in raw))
+        text.append(rows_text(k, rows))
+        plan.append((m, k, w))
+    text.append("END\n")
+    out = run_model(ctx, mexe, "".join(text))
+    pos = 0
+    for m, k, w in plan:
+        head = out[pos].split() if pos < len(out) else []
+        pos += 1
+        if len(head) != 5 or head[0] != "W" or head[1] != "1":
+            raise vlib.BuildError("model driver protocol error (WRAP): %r" % (head,))
+        fired = head[2] == "1"
+        pos += int(head[3])
+        got = out[pos:pos + n]
+        pos += n
+        if len(got) != n or any(not g.startswith("R ") for g in got):
+            raise vlib.BuildError("model driver protocol error (WRAP rows)")
+        rows, raw = w["rows"], w["raw"]
+        if stats is not None:
+            stats["wrap_calls"] = stats.get("wrap_calls", 0) + 1
+            if fired:
+                stats["wrap_fired_" + m] = stats.get("wrap_fired_" + m, 0) + 1
+        if m == "B" or fired:
+            short = next(((q, len(r)) for q, r in raw if len(r) != k), None)
+            wrongraw = 0
+            for g, (q, row) in zip(got, rows):
+                if g.partition("|")[0].split()[2] != "1":
+                    want = sorted(T[q][j] for j in range(n) if j != q)[:k]
+                    viol.append((m, k, "%s, k=%d on a callback that is not a metric: %s, but the returned row of query %d "
+                                 "is %s (callback values %s) and the k smallest values to the other samples are %s"
+                                 % (MNAME[m], k, "the exhaustive search needs no metric" if m == "B" else
+                                    "the tree search left query %d with %d neighbours, so the exhaustive-search fallback "
+                                    "fired and every row must be exact" % (short or (-1, -1)), q, row,
+                                    [T[q][j] if 0 <= j < n else None for j in row], want)))
+                    break
+            if stats is not None and fired:
+                stats["wrap_rows_judged"] = stats.get("wrap_rows_judged", 0) + n
+                for q, r in raw:
+                    if len(r) == k and sorted(T[q][j] for j in r) != sorted(T[q][j] for j in range(n) if j != q)[:k]:
+                        wrongraw += 1
+                if wrongraw:
+                    # a fired call whose raw table ALSO holds complete-but-wrong rows: where a partial fallback shows
+                    stats["wrap_fired_with_wrong_complete_rows"] = stats.get("wrap_fired_with_wrong_complete_rows", 0) + 1
+        elif rows != raw:
+            mism.append("%s k=%d: no row of the raw tree table has a size other than k, yet find_neighbors returned another "
+                        "table than the tree search (theorem wrapper_exact: rows = tree_rows)" % (MNAME[m], k))
+        if (w["logged"] > 0) != (fired and m != "B"):
+            mism.append("%s k=%d: the library logged %d warnings, the model of the dispatcher says fallback fired = %s"
+                        % (MNAME[m], k, w["logged"], fired))
+    return viol, mism
+
+
+def fails_wrap(ctx, exe, mexe, c, method, k):
+    """find_neighbors(method, k) through the dispatcher on an arbitrary callback table: None | why"""
+    n = c["N"]
+    if not (1 <= k <= n - 1):
+        return None
+    cmds = (["P"] if c["kind"] != "D" else []) + ["W %s %d" % (method, k)]
+    r = run_impl(ctx, exe, [c], [cmds], timeout=30 if n <= 200 else 120)[0]
+    if r["crashed"]:
+        return "find_neighbors(%s, k=%d) on a callback that is not a metric aborts: %s" % (
+            MNAME[method], k, str(r["sanitizer"])[:400])
+    p = parse_case_output(r["lines"])
+    if p["bad"] or p["exc"]:
+        return "find_neighbors(%s, k=%d) on a callback that is not a metric: %s" % (MNAME[method], k,
+                                                                                    (p["bad"] + p["exc"])[0])
+    T = wrap_table(c, p)
+    w = p["W"].get((method, k))
+    if T is None or w is None:
+        return None
+    viol, _ = judge_wrap(ctx, mexe, c, T, [(method, k, w)])
+    return viol[0][2] if viol else None
+
+
+def evaluate_wrap(ctx, exe, mexe, cases, stats):
+    """the dispatcher stream: every case is a NON-metric callback table; B, V, C through command W for every k"""
+    cmdlists = [(["P"] if c["kind"] != "D" else []) + ["W %s %d" % (m, k) for k in c["ks"] for m in METHODS]
+                for c in cases]
+    impl = run_impl(ctx, exe, cases, cmdlists)
+    nrows = 0
+    for c, r in zip(cases, impl):
+        n = c["N"]
+        if r.get("skipped"):
+            stats["skipped_cases"] = stats.get("skipped_cases", 0) + 1
+            continue
+        p = None if (r["crashed"] or not r["ended"]) else parse_case_output(r["lines"])
+        if p is None or p["bad"] or p["exc"]:
+            stats["wrap_aborted_cases"] = stats.get("wrap_aborted_cases", 0) + 1
+            if stats["wrap_aborted_cases"] > 3 and ctx.has_violation():
+                continue
+            hit = False
+            for k in c["ks"]:
+                for m in METHODS:
+                    why = fails_wrap(ctx, exe, mexe, c, m, k)
+                    if why:
+                        report_violation(ctx, exe, mexe, c, m, k, why, "wrap")
+                        hit = True
+                        break
+                if hit:
+                    break
+            if not hit:
+                ctx.mismatch({"gen": c["gen"], "N": n, "kind": c["kind"], "M": c.get("M"), "Ghex": c.get("Ghex"), "ks": c["ks"]},
+                             "the dispatcher probe (W) aborts or prints garbage although no single call does: "
+                             + str(r["sanitizer"] or (p and (p["bad"] + p["exc"])[:1]))[:300])
+            continue
+        T = wrap_table(c, p)
+        if T is None:
+            stats["wrap_tables_with_nan"] = stats.get("wrap_tables_with_nan", 0) + 1
+            continue
+        if c["kind"] == "D" and n <= 40 and is_metric(T):
+            stats["wrap_tables_metric_after_all"] = stats.get("wrap_tables_metric_after_all", 0) + 1
+        obs = [(m, k, p["W"][(m, k)]) for k in c["ks"] for m in METHODS if (m, k) in p["W"]]
+        if len(obs) != 3 * len(c["ks"]):
+            ctx.mismatch({"gen": c["gen"], "N": n}, "the dispatcher probe printed %d of %d results" % (len(obs), 3 * len(c["ks"])))
+        viol, mism = judge_wrap(ctx, mexe, c, T, obs, stats)
+        nrows += n * len(obs)
+        for m, k, why in viol[:1]:
+            why = fails_wrap(ctx, exe, mexe, c, m, k) or why
+            report_violation(ctx, exe, mexe, c, m, k, why, "wrap")
+        for text in mism[:1]:
+            ctx.mismatch({"gen": c["gen"], "N": n, "kind": c["kind"], "M": c.get("M"), "Ghex": c.get("Ghex"), "X": c.get("X")}, text)
+    return nrows
+
+
 # ----------------------------------------------------------------------------- tie statistics (evidence only)
 def tie_stats(c, stats):
     T, _ = model_table(c)
@@ -1156,6 +1417,14 @@ def search_phase(ctx, exe, mexe, rng, budget, stats, hist):
             cases.append(c)
             hist["search:" + c["gen"]] = hist.get("search:" + c["gen"], 0) + 1
     n = 0
+    # the dispatcher on callbacks that are not metrics first (cheap, and the only stream that sees the fallback)
+    wcases = [gen_nonmetric(rng) for _ in range(max(100, budget // 3))]
+    for c in wcases:
+        hist["search:" + c["gen"]] = hist.get("search:" + c["gen"], 0) + 1
+    for i in range(0, len(wcases), 100):
+        n += evaluate_wrap(ctx, exe, mexe, wcases[i:i + 100], stats)
+        if ctx.has_violation():
+            return n, cases
     for i in range(0, len(cases), 200):
         n += evaluate(ctx, exe, mexe, cases[i:i + 200], stats, structural=False)
         if ctx.has_violation():
@@ -1163,8 +1432,39 @@ def search_phase(ctx, exe, mexe, rng, budget, stats, hist):
     return n, cases
 
 
+def translate_shape(ctx):
+    """T: translate/t_knn_wrapper.py reads the shape of the dispatcher find_neighbors (clamp, dispatch, the fallback block)
+    from THIS tree; it must be the committed table coq/gen/KnnWrapper.v, which Properties_C02.fn_shape_src_is_model proves
+    equal to the shape Knn_Wrapper_Model.find_neighbors_core transcribes.  (Compared as text, the shared coq/gen is not
+    rewritten: another run of this check against another tree may be using it.)"""
+    import importlib
+    import os
+    import sys
+    sys.path.insert(0, os.path.join(ctx.verif, "translate"))
+    try:
+        t = importlib.import_module("t_knn_wrapper")
+        text = t.emit(t.parse(ctx.repo))
+        committed = open(os.path.join(ctx.verif, "coq", "gen", "KnnWrapper.v")).read()
+        if text != committed:
+            a, b = text.splitlines(), committed.splitlines()
+            d = next((i for i, (x, y) in enumerate(zip(a, b)) if x != y), min(len(a), len(b)))
+            ctx.unshown("translator t_knn_wrapper: the shape of find_neighbors (neighbors.hpp) is no longer the one the model "
+                        "of the dispatcher transcribes; first difference: source %r, model %r"
+                        % (a[d].strip()[:160] if d < len(a) else None, b[d].strip()[:160] if d < len(b) else None))
+        bad = t.self_test(ctx.repo) if text == committed else []
+        if bad:
+            ctx.unshown("translator t_knn_wrapper self-test: seeded edits not detected: %s" % bad)
+        ctx.note("t_knn_wrapper: table %s" % ("unchanged" if text == committed else "CHANGED"))
+    except OSError as ex:
+        ctx.unshown("translator t_knn_wrapper: cannot read the source: %s" % ex)
+    except Exception as ex:      # TranslateError
+        ctx.unshown("translator t_knn_wrapper: find_neighbors (neighbors.hpp) is no longer understood (%s): %s"
+                    % (type(ex).__name__, str(ex)[:300]))
+
+
 def run(ctx):
     rng = ctx.rng
+    translate_shape(ctx)
     ctx.coq()
     exe = ctx.cpp("harness/c02.cpp")
     mexe = ctx.extract()
@@ -1238,6 +1538,21 @@ def run(ctx):
     for c in cases:
         if c["gen"] not in FAST and c["N"] <= 150 and c["ks"]:
             c["conn_k"] = rng.choice(c["ks"][:3])
+    # one probe per non-batched case of the dispatcher with the logger observed (command W), tree methods: on a metric the
+    # fallback must not fire
+    for c in cases:
+        if c["gen"] not in FAST and c["N"] <= 150 and c["ks"] and c.get("structural", True):
+            c["wrap_k"] = rng.choice(c["ks"])
+    # the dispatcher stream: callbacks that are NOT metrics (see gen_nonmetric), every method, 5-6 k each
+    wcases = [gen_nonmetric(rng) for _ in range(260 if quick else 1500)]
+    for nbig in ([120] if quick else [120, 200, 200]):
+        # the shape of the demo of seeded change C02_4: 10 features, common offset 7e6, spread 1, k = 5
+        X = [[7e6 + rng.random() for _ in range(10)] for _ in range(nbig)]
+        G = [[math.fsum(a * b for a, b in zip(p_, q_)) for q_ in X] for p_ in X]
+        wcases.append({"gen": "nm_koff", "tseed": 1, "structural": False, "nonmetric": True, "kind": "K", "N": nbig, "X": X,
+                       "Ghex": [[v.hex() for v in row] for row in G], "kscale": 0, "ks": [5]})
+    for c in wcases:
+        hist[c["gen"]] = hist.get(c["gen"], 0) + 1
     for c in cases:
         hist[c["gen"]] = hist.get(c["gen"], 0) + 1
         if c["gen"] not in FAST:
@@ -1256,6 +1571,10 @@ def run(ctx):
         if stats.get("aborted_cases", 0) >= 3 and ctx.has_violation():
             ctx.note("stopped after %d aborted cases (hang / crash of the library)" % stats["aborted_cases"])
             break
+    for i in range(0, len(wcases), 100):
+        if (stats.get("aborted_cases", 0) >= 3 or stats.get("wrap_aborted_cases", 0) >= 3) and ctx.has_violation():
+            break
+        n += evaluate_wrap(ctx, exe, mexe, wcases[i:i + 100], stats)
     for c in large:
         if stats.get("aborted_cases", 0) >= 3 and ctx.has_violation():
             break
@@ -1303,7 +1622,7 @@ def run(ctx):
                      "allowed) — brute force needs no assumption", "1 <= k <= N-1", "distances are finite and far "
                      "below DBL_MAX", "cover tree: distance ratio below 1.3^188 (101-slot cover_sets array physically "
                      "holds 189 entries)"],
-        extra={"cases": len(cases)})
+        extra={"cases": len(cases) + len(wcases), "dispatcher_cases_nonmetric": len(wcases)})
 
 
 def replay(ctx, case):
@@ -1325,9 +1644,9 @@ def replay(ctx, case):
     rc = 0
     for k in ks:
         for m in methods:
-            r = run_impl(ctx, exe, [c], [["F %s %d" % (m, k)]], timeout=60)[0]
+            r = run_impl(ctx, exe, [c], [["%s %s %d" % ("W" if case.get("wrap") else "F", m, k)]], timeout=60)[0]
             print("\n".join(r["lines"][:40]))
-            why = fails_spec(ctx, exe, mexe, c, m, k, bool(case.get("conn")))
+            why = fails_spec(ctx, exe, mexe, c, m, k, "wrap" if case.get("wrap") else bool(case.get("conn")))
             if why:
                 print("replay: property C02 FAILS: " + why[:1200])
                 rc = 1
